@@ -34,7 +34,7 @@ type c02Plan struct {
 	gateway bool
 }
 
-var c02Lists = []string{"starttls-required", "starttls-optional", "starttls-absent-sasl-offered", "empty", "starttls-among-others", "unknown-only", "bind-and-sasl-only"}
+var c02Lists = []string{"starttls-required", "starttls-optional", "starttls-absent-sasl-offered", "empty", "starttls-among-others", "unknown-only", "bind-and-sasl-only", "starttls-and-secure-only-voluntary"}
 var c02Answers = []string{"proceed", "proceed", "failure", "garbage", "other-namespace", "proceed+pipelined-plaintext", "silence", "cut", "proceed-then-garbage", "whitespace", "whitespace-then-features", "text"}
 
 type c02Outcome struct {
@@ -126,6 +126,9 @@ func c02Session(rc *RC, idx int, tag string, origin jid.JID, neg *c02Neg, plan c
 			fl = `<x xmlns='urn:verif:unknown'/>`
 		case "bind-and-sasl-only":
 			fl = mech + bindF
+		case "starttls-and-secure-only-voluntary":
+			// a voluntary feature the client supports, but only on a secured stream, offered next to STARTTLS
+			fl = `<vol xmlns='urn:verif:secvol'/>` + []string{tlsOpt, tlsReq}[plan.answer%2]
 		}
 		if plan.foreignTo {
 			fmt.Fprintf(sc, `<?xml version='1.0'?><stream:stream xmlns='jabber:client' xmlns:stream='http://etherx.jabber.org/streams' version='1.0' id='clear-first' from='%s' to='me@attacker.example'><stream:features>%s</stream:features>`, location, fl)
@@ -291,7 +294,9 @@ func runC02(rc *RC) {
 		cfg = &tls.Config{RootCAs: pool, ServerName: "example.net", MinVersion: tls.VersionTLS12}
 	}
 	// ONE set of feature values reused for every session of the sequence
-	feats := []xmpp.StreamFeature{xmpp.StartTLS(cfg), xmpp.SASL("", "pass", sasl.Plain), xmpp.BindResource()}
+	secVol := volFeature("urn:verif:secvol", nil)
+	secVol.Necessary = xmpp.Secure
+	feats := []xmpp.StreamFeature{secVol, xmpp.StartTLS(cfg), xmpp.SASL("", "pass", sasl.Plain), xmpp.BindResource()}
 	// ... and ONE negotiator per tee setting, reused as well
 	negOff, negOn := newC02Neg(feats, false), newC02Neg(feats, true)
 	rc.Describe("cfg-nil=%v sessions=%d", useNil, nSess)
